@@ -402,6 +402,53 @@ Definition add_edge (s d : list str) (prim : option sid) (em : option imap) (m :
 
 Definition count_edges (s d : list str) (i : nat) (m : imap) : nat := length (filter (edge_is s d i) (m_es m)).
 
+(* ---- boards: `kind: { name: { body } }` at the root of a board *)
+
+(* the layers / scenarios / steps map of a board *)
+Definition kind_map (kn : str) (m : imap) : imap :=
+  match find_f kn (m_fs m) with Some kf => map_of kf | None => empty_map end.
+
+(* _compileField on a board field.  Result: the map the board's body is compiled on, the boards map (with
+   the board's field ensured; for a step after the first, with CopyBase's re-ordering of the previous
+   step), and the parent board's map after CopyBase ran on it.
+     existing board (its map is there): no overlay, the body is compiled on the map it has
+     layer:     an empty map
+     scenario:  a copy of the parent board as it is NOW, without its boards and its label
+     step:      first field of the steps map: like a scenario; otherwise a copy of the step before it *)
+Definition board_start (k : bkind) (name : str) (km m : imap) : imap * (imap * imap) :=
+  match (match find_f name (m_fs km) with Some cf => f_comp cf | None => None end) with
+  | Some cm => (cm, (km, m))
+  | None =>
+      let km1 := IMap (upd_fs name (fun f => f) (m_fs km)) (m_es km) in
+      match k with
+      | Layers => (empty_map, (km1, m))
+      | Scenarios => (inherit m, (km1, reorder m))
+      | Steps =>
+          match idx_of name (m_fs km1) with
+          | O => (inherit m, (km1, reorder m))
+          | S j =>
+              match nth_error (m_fs km1) j with
+              | Some pf =>
+                  (inherit (map_of pf),
+                   (match f_comp pf with
+                    | Some pm => IMap (mod_fs (f_name pf) (fun f => set_comp f (reorder pm)) (m_fs km1)) (m_es km1)
+                    | None => km1
+                    end, m))
+              | None => (empty_map, (km1, m))
+              end
+          end
+      end
+  end.
+
+(* after compileMap of a scenario / step: overlayClasses(f.Map()) *)
+Definition finish_child (k : bkind) (r : imap) : imap :=
+  match k with Layers => r | _ => overlay_classes r end.
+
+Definition put_child (kn name : str) (child km parent : imap) : imap :=
+  IMap (upd_fs kn (fun f => set_comp f (IMap (upd_fs name (fun f => set_comp f child) (m_fs km)) (m_es km)))
+               (m_fs parent))
+       (m_es parent).
+
 (* A declaration is compiled against the root map of the current board.  Nested bodies are compiled
    with their keys prefixed by the scope (`x: { y }` builds the same IR as `x; x.y`), so that a deletion
    deep inside can reach the connections stored in the maps above it.
@@ -480,43 +527,9 @@ Fixpoint step (scope : list str) (m : imap) (d : decl) {struct d} : imap * bool 
              match bs with
              | [] => (m, false)
              | (name, body) :: tl =>
-                 let km := match find_f kn (m_fs m) with Some kf => map_of kf | None => empty_map end in
-                 let existing := match find_f name (m_fs km) with
-                                 | Some cf => f_comp cf
-                                 | None => None
-                                 end in
-                 (* the map the board starts from, the boards map and the parent after CopyBase ran *)
-                 let start :=
-                   match existing with
-                   | Some cm => (cm, (km, m))
-                   | None =>
-                       let km1 := IMap (upd_fs name (fun f => f) (m_fs km)) (m_es km) in
-                       match k with
-                       | Layers => (empty_map, (km1, m))
-                       | Scenarios => (inherit m, (km1, reorder m))
-                       | Steps =>
-                           (* position of the (possibly new) step in the steps map *)
-                           match idx_of name (m_fs km1) with
-                           | O => (inherit m, (km1, reorder m))
-                           | S j =>
-                               match nth_error (m_fs km1) j with
-                               | Some pf =>
-                                   (inherit (map_of pf),
-                                    (match f_comp pf with
-                                     | Some pm => IMap (mod_fs (f_name pf) (fun f => set_comp f (reorder pm)) (m_fs km1)) (m_es km1)
-                                     | None => km1
-                                     end, m))
-                               | None => (empty_map, (km1, m))
-                               end
-                           end
-                       end
-                   end in
+                 let start := board_start k name (kind_map kn m) m in
                  let r := steps [] (fst start) body in
-                 let child := match k with Layers => fst r | _ => overlay_classes (fst r) end in
-                 let km2 := IMap (upd_fs name (fun f => set_comp f child) (m_fs (fst (snd start))))
-                                 (m_es (fst (snd start))) in
-                 let m2 := IMap (upd_fs kn (fun f => set_comp f km2) (m_fs (snd (snd start))))
-                                (m_es (snd (snd start))) in
+                 let m2 := put_child kn name (finish_child k (fst r)) (fst (snd start)) (snd (snd start)) in
                  let r2 := boards tl m2 in
                  (fst r2, snd r || snd r2)
              end) bs (IMap (upd_fs kn with_map (m_fs m)) (m_es m))
